@@ -12,6 +12,8 @@
 (*   eof   {dir, off}          Transmit of the rest and the FIN ; EOF(dir):*)
 (*                             only after close and with read = written    *)
 (*   cut   {note}              Cut(where)                                  *)
+(*   accepted {dir, note}      read deadline found armed on the stream that  *)
+(*                             reads dir, right after Accept/Dial: "none"    *)
 (*   notice {dir, note}        Notice(dir): a transient unreachable notice *)
 (*                             was injected; it must change nothing        *)
 (*   werr / rerr               only SendError ; ReadError: an origin-side  *)
@@ -54,6 +56,7 @@ Why ==
                   ELSE IF rEOF[D] THEN "data_after_eof" ELSE "read"
     [] Ev("eof") -> IF ~WriterEndedT(D) THEN "eof_before_close" ELSE IF read[D] # written[D] THEN "eof_before_all_data" ELSE "eof"
     [] Ev("notice") -> "fatal_notice_kind"
+    [] Ev("accepted") -> "library_read_deadline"
     [] Ev("rerr") -> "read_error"
     [] Ev("werr") -> "write_error"
     [] Ev("end") -> "totals"
@@ -108,6 +111,13 @@ TNotice ==
   /\ wClosed' = IF NoticeEndsStream THEN [wClosed EXCEPT ![D] = TRUE] ELSE wClosed
   /\ UNCHANGED <<written, avail, read, finAvail, rEOF, rErr, conn, path, cutsLeft, appClosed, skip, nseg, full>>
 
+\* right after Accept/Dial the harness reads the read deadline armed on each end's stream (verif accessor):
+\* the application has set none, so "armed" is a behaviour only of the AcceptLeavesDeadline variant
+G_accepted == (Trace[l].note = "armed") => (AcceptLeavesDeadline /\ D = "ab")
+TAccepted ==
+  /\ Ev("accepted") /\ ~skip /\ G_accepted /\ Step
+  /\ UNCHANGED <<vars, skip, nseg, full>>
+
 \* an error is a behaviour of the spec only as SendError (origin-side cut, code as it is) followed by ReadError
 G_err == OriginErrorFatal /\ ~("origin" \in cutsLeft) /\ ("origin" \in Cuts)
 TErr ==
@@ -133,14 +143,14 @@ TEnd ==
   /\ UNCHANGED <<vars, skip, nseg, full>>
 
 Accepts == \/ (Ev("w") /\ G_w) \/ (Ev("close") /\ G_close) \/ (Ev("r") /\ G_r) \/ (Ev("eof") /\ G_eof)
-           \/ (Ev("notice") /\ G_notice) \/ ((Ev("rerr") \/ Ev("werr")) /\ G_err) \/ G_reset \/ (Ev("end") /\ G_end) \/ Ev("cut")
+           \/ (Ev("notice") /\ G_notice) \/ (Ev("accepted") /\ G_accepted) \/ ((Ev("rerr") \/ Ev("werr")) /\ G_err) \/ G_reset \/ (Ev("end") /\ G_end) \/ Ev("cut")
 TBad ==
   /\ l <= Len(Trace) /\ Trace[l].ev \notin {"reset", "cut"} /\ Step
   /\ \/ skip /\ skip' = TRUE
      \/ ~skip /\ ~Accepts /\ skip' = TRUE /\ PrintT(<<"REJECT", l, Trace[l].ev, Why>>)
   /\ UNCHANGED <<vars, nseg, full>>
 
-TNext == TNotice \/ TResetAsEOF \/ TReset \/ TWrite \/ TClose \/ TRead \/ TEOF \/ TCut \/ TErr \/ TEnd \/ TBad
+TNext == TAccepted \/ TNotice \/ TResetAsEOF \/ TReset \/ TWrite \/ TClose \/ TRead \/ TEOF \/ TCut \/ TErr \/ TEnd \/ TBad
 TSpec == TInit /\ [][TNext]_tvars
 
 Done == l = Len(Trace) + 1 => PrintT(<<"DONE", l - 1, nseg>>)
